@@ -39,6 +39,13 @@ import (
 func init() {
 	streams["incl"] = inclStream
 	replayers["incl"] = func(r *Run, f []string) string {
+		if len(f) > 2 && f[0] == "incld" { // a deep or cyclic layout: its own oracle (stream_incl_depth.go)
+			c := parseInclLine(f[2:])
+			if c == nil {
+				return "bad-op"
+			}
+			return c.checkDepth(r, strings.Join(f, " "), f[1])
+		}
 		c := parseInclLine(f)
 		if c == nil {
 			return "bad-op"
@@ -250,6 +257,7 @@ func (c *inclCase) lookup(name string) (string, bool) {
 // refEngine: an engine whose include tag is the reference implementation over the table.
 func (c *inclCase) refEngine(d string) *liquid.Engine {
 	e := liquid.NewEngine()
+	nesting := 0 // the include tags the reference render is nested in (renders on this engine are sequential)
 	e.RegisterTag("include", func(ctx render.Context) (string, error) {
 		v, err := ctx.EvaluateString(ctx.TagArgs())
 		if err != nil {
@@ -259,6 +267,11 @@ func (c *inclCase) refEngine(d string) *liquid.Engine {
 		if !ok {
 			return "", fmt.Errorf("reference include: not a string")
 		}
+		if nesting >= refMaxIncludeDepth { // the documented limit, tested before the file is looked up
+			return "", fmt.Errorf("reference include: nested too deep")
+		}
+		nesting++
+		defer func() { nesting-- }()
 		filename := filepath.Join(filepath.Dir(ctx.SourceFile()), rel)
 		content, ok := c.lookup(filepath.ToSlash(stripDir(d, filename)))
 		if !ok || !strings.HasPrefix(filename, d) {
@@ -808,6 +821,12 @@ func genInclCase(g *RNG, r *Run) *inclCase {
 func inclStream(r *Run) {
 	for _, cl := range corpusLines("incl") {
 		if f := strings.Fields(cl); r.Mine() {
+			if len(f) > 2 && f[0] == "incld" {
+				if c := parseInclLine(f[2:]); c != nil {
+					r.Emit(cl, c.checkDepth(r, cl, f[1]))
+				}
+				continue
+			}
 			if c := parseInclLine(f); c != nil {
 				res := c.check(r, cl)
 				if f[0] == "render" {
@@ -819,6 +838,7 @@ func inclStream(r *Run) {
 	if r.Shard == 0 {
 		inclSharedAcrossDirs(r)
 	}
+	inclDepthFamily(r)
 	n := 10000
 	if r.Tier == "thorough" {
 		n = 100000
